@@ -157,3 +157,32 @@ def run_case(sc: Dict[str, Any]) -> Outcome:
 
 
 SELFTEST_CASES = []
+
+
+# ---------------------------------------------------------------- sync functions through a real thread pool
+#
+# An outcome that cannot travel from the pool's future into the loop's (a StopIteration) leaves the execution hanging and its
+# slot occupied for good.  Same harness as C07's `sync_pool` part (real ThreadPoolExecutor, completion detected with barrier
+# jobs, no wall-clock verdict); here a hung execution is a slot leak (C03.c).
+
+from vt.props import c07 as _c07
+
+_parts_core03, _run_core03 = parts, run_case
+
+
+def parts(tier: str) -> List[Part]:  # type: ignore[no-redef]
+    n = 900 if tier == "thorough" else 80
+    return _parts_core03(tier) + [Part("sync_pool", "given", shards=2, examples=n, strategy=_c07.pool_cases, soft_deadline_s=900 if tier == "thorough" else 100)]
+
+
+def run_case(sc: Dict[str, Any]) -> Outcome:  # type: ignore[no-redef]
+    if not sc.get("pool"):
+        return _run_core03(sc)
+    inner = _c07.run_pool_case(sc)
+    out = Outcome()
+    out.clauses_checked = ["C03.c"]
+    for v in inner.violations:
+        if "never completed" in v.detail:
+            out.add("C03.c", v.detail + " - the worker has one execution slot less from now on")
+    out.nontrivial, out.classes, out.trace = inner.nontrivial, inner.classes, inner.trace
+    return out
